@@ -5,6 +5,7 @@
 //	                               (v = value inside the round-trip domain, computed independently by harness and model)
 //	c30 un  <kind> <params> <hex>  unmarshal arbitrary bytes                   → "ok <dump>" | "err"
 //	c30 pre <kind> <fields>        marshal, then unmarshal EVERY strict prefix → "acc=<accepted lengths | ->"
+//	c30 bnd <kind> <compact>       rt on a value written compactly (@N = N bytes, K*e = K entries, #N = N uint16s); T3 only, see bnd.go
 package c30
 
 import (
@@ -12,6 +13,7 @@ import (
 	"fmt"
 	"strconv"
 	"strings"
+	"time"
 
 	"github.com/zmap/zcrypto/tls"
 
@@ -292,14 +294,23 @@ func marshal(kind, fs string) (out []byte, panicked bool) {
 	return tls.ZVMarshal(kind, fs), false
 }
 
-func exec(line string) zv.Out {
+func exec(line string) (out zv.Out) {
 	a := strings.Fields(line)
 	switch a[1] {
-	case "rt", "pre":
+	case "rt", "pre", "bnd":
 		kind, fs := a[2], a[3]
+		bnd := a[1] == "bnd"
+		if bnd { // compact field text, T3 only (see bnd.go)
+			fs = expand(fs)
+			a[1] = "rt"
+			defer func() { out.Go = "" }()
+		}
 		f := parseFields(fs)
 		ok := valid(kind, f)
 		tags := []string{a[1] + ":" + kind, fmt.Sprintf("%s:valid=%v", kind, ok)}
+		if bnd {
+			tags = append(tags, "bnd:"+kind, fmt.Sprintf("bnd:valid=%v", ok))
+		}
 		bs, p := marshal(kind, fs)
 		if p {
 			o := zv.Out{Go: "panic", Tags: append(tags, "marshal-panic")}
@@ -315,13 +326,13 @@ func exec(line string) zv.Out {
 			if !uok {
 				o.Go = vs + hx(bs) + " err"
 				if ok {
-					o.Viol = fmt.Sprintf("%s: unmarshal rejects the marshalled bytes %s of a valid value", kind, hx(bs))
+					o.Viol = fmt.Sprintf("%s: unmarshal rejects the marshalled bytes %s of a valid value", kind, clipHex(bs))
 				}
 				return o
 			}
 			o.Go = vs + hx(bs) + " ok " + dump
 			if want := tls.ZVNormalize(kind, fs); ok && dump != want {
-				o.Viol = fmt.Sprintf("%s: unmarshal(marshal(m)) differs from m: got %s want %s", kind, dump, want)
+				o.Viol = fmt.Sprintf("%s: unmarshal(marshal(m)) differs from m: got %s want %s", kind, clipStr(dump), clipStr(want))
 			}
 			return o
 		}
@@ -345,6 +356,19 @@ func exec(line string) zv.Out {
 		return zv.Out{Go: "ok " + dump, Tags: []string{"un:" + kind, "un:ok"}}
 	}
 	return zv.Out{Go: "bad-op"}
+}
+
+func clipHex(b []byte) string {
+	if len(b) > 48 {
+		return fmt.Sprintf("%s… (%d bytes)", hx(b[:48]), len(b))
+	}
+	return hx(b)
+}
+func clipStr(s string) string {
+	if len(s) > 600 {
+		return fmt.Sprintf("%s… (%d characters)", s[:600], len(s))
+	}
+	return s
 }
 
 // ---- generators ----
@@ -819,6 +843,8 @@ func gen(g *zv.Gen) {
 			g.Emitf("c30 un %s - %s", k, hx(r.Bytes(n)))
 		}
 	}
+	// deterministic length boundaries of every length-prefixed field / nested list of every kind (bnd.go)
+	genBoundaries(g)
 	kinds := tls.ZVKinds()
 	per := g.N(800, 30000)
 	for _, k := range kinds {
@@ -861,8 +887,8 @@ func gen(g *zv.Gen) {
 }
 
 func init() {
-	zv.Register(&zv.Prop{ID: "C30", Topic: "c30", Gen: gen, Exec: exec,
-		Rule: "per message kind (20 kinds: every handshakeMessage type of handshake_messages.go, sessionState, sessionStateTLS13): seeded random values " +
+	zv.Register(&zv.Prop{ID: "C30", Topic: "c30", Gen: gen, Exec: exec, Timeout: 5 * time.Minute, // the 2^24-1 cases of the thorough tier move ~100 MB of hex text each
+		Rule: "bnd = deterministic length boundaries: for every kind, every length-prefixed field, list length and list entry (80 knobs: the field alone in a minimal valid value, the entry count of a list, the last entry of an almost-full list such as a 16-certificate chain) is grown through windows in which its own prefix and every enclosing prefix (list, extension data, extension block, handshake body) cross the carries 255|256 and 65535|65536 (131072 for 3-byte prefixes) and reaches the prefix maximum (hand-rolled encoders: stated maxima; cryptobyte encoders: largest size the encoder does not refuse, found by bisection); thorough adds 511|512 and the 2^24-1 maxima (Certificate at 2^24-4..2^24-1) — ~6000 compact T3 lines (marshal, unmarshal, compare) + the on-the-carry cases spelled out as rt lines for the Lean model; then per message kind (20 kinds: every handshakeMessage type of handshake_messages.go, sessionState, sessionStateTLS13): seeded random values " +
 			"with empty/1-byte/typical/maximal fields covering every field the marshaller reads (incl. extended random, unknown extensions, PSK, key shares), " +
 			"a few deliberately outside the round-trip domain; rt = marshal+unmarshal, pre = unmarshal of EVERY strict prefix of the encoding, " +
 			"un = unmarshal of mutated encodings (bit flip, ±1, insert, delete, truncate, append), of hellos with permuted / duplicated / merged / dropped extension entries, and noise; a case is one distinct line; " +
